@@ -142,6 +142,11 @@ def g1(proj, rep):
                               f'synthesis use S,A,D,I', m, c)
     if nconc < 2:
         rep.undecided('G1', f.qual, f'{nconc} concat sites found (expected one per backend)', m, f.node, text='analysis concat sites')
+    tril = [c for c in ast.walk(f.node) if isinstance(c, ast.Call) and ast.unparse(c.func).split('.')[-1] in ('tril_indices', 'tril_indices_from')]
+    if tril:
+        n += 1
+        rep.violation('G1', f.qual, f'`{ast.unparse(tril[0])[:60]}`: the analysis reads off-diagonal coefficients in tril order (1,0),(2,0),(2,1),(3,0).. while the basis and the '
+                      f'synthesis enumerate pairs in triu order (0,1),(0,2),..,(1,2),.. transposed: from d = 4 on the antisymmetric block of the coefficient vector is permuted', m, tril[0])
     # (d) synthesis slices
     f = proj.func(SYNTH)
     se = SymEval({'N1': Poly.var('d')})
